@@ -62,7 +62,14 @@ pub(crate) fn rename_positions(
         visitor.visit_toplevel_item(&item);
     }
 
-    Ok(visitor.replace_positions)
+    // Some symbols are reachable twice in the syntax tree (e.g. the
+    // name of a method definition), but each occurrence is only one
+    // edit.
+    let mut positions = visitor.replace_positions;
+    positions.sort_unstable_by_key(|pos| (pos.start_offset, pos.end_offset));
+    positions.dedup_by_key(|pos| (pos.start_offset, pos.end_offset));
+
+    Ok(positions)
 }
 
 struct RenameLocalVisitor {
